@@ -1,5 +1,11 @@
 package main
 
+import (
+	"fmt"
+	"go/ast"
+	"strings"
+)
+
 func init() {
 	fpRegister("pkg/rest/apiv1_controller.go", "MailboxListV1", "MailboxShowV1", "MailboxMarkSeenV1", "MailboxPurgeV1", "MailboxSourceV1", "MailboxDeleteV1")
 	fpRegister("pkg/rest/routes.go", "SetupRoutes")
@@ -12,4 +18,139 @@ func init() {
 	fpRegister("pkg/rest/client/rest.go", "restClient.do", "restClient.doJSON")
 	fpRegister("pkg/message/manager.go", "StoreManager.GetMessage", "StoreManager.SourceReader", "StoreManager.MarkSeen",
 		"StoreManager.RemoveMessage", "StoreManager.PurgeMessages", "StoreManager.MailboxForAddress", "StoreManager.GetMetadata")
+}
+
+// ---- route tables (translator): the templates, handler names and methods registered by
+// pkg/rest/routes.go and pkg/webui/routes.go, in source order, and the mount points / client prefix.
+
+func init() { register("RestRoutes.v", genRestRoutes) }
+
+type routeEnt struct{ tpl, name, method string }
+
+func routesOf(repo, rel string) ([]routeEnt, error) {
+	_, f, err := parseFile(repo, rel)
+	if err != nil {
+		return nil, err
+	}
+	d := findFunc(f, "SetupRoutes")
+	if d == nil {
+		return nil, fmt.Errorf("%s: SetupRoutes not found", rel)
+	}
+	var out []routeEnt
+	for _, st := range d.Body.List {
+		es, ok := st.(*ast.ExprStmt)
+		if !ok {
+			continue
+		}
+		var e routeEnt
+		var cur ast.Expr = es.X
+		for {
+			c, ok := cur.(*ast.CallExpr)
+			if !ok {
+				break
+			}
+			s, ok := c.Fun.(*ast.SelectorExpr)
+			if !ok {
+				break
+			}
+			if len(c.Args) > 0 {
+				if v, ok := litString(c.Args[0]); ok {
+					switch s.Sel.Name {
+					case "Path":
+						e.tpl = v
+					case "Name":
+						e.name = v
+					case "Methods":
+						if len(c.Args) != 1 {
+							return nil, fmt.Errorf("%s: route with several methods", rel)
+						}
+						e.method = v
+					}
+				}
+			}
+			cur = s.X
+		}
+		if e.tpl == "" || e.name == "" || e.method == "" {
+			return nil, fmt.Errorf("%s: statement in SetupRoutes is not Path(..).Handler(..).Name(..).Methods(..)", rel)
+		}
+		out = append(out, e)
+	}
+	return out, nil
+}
+
+func coqRoutes(rs []routeEnt) string {
+	parts := make([]string, len(rs))
+	for i, r := range rs {
+		parts[i] = fmt.Sprintf("(%s, %s, %s)", coqStr(r.tpl), coqStr(r.name), coqStr(r.method))
+	}
+	return "[" + strings.Join(parts, ";\n   ") + "]"
+}
+
+func genRestRoutes(repo string) (string, error) {
+	api, err := routesOf(repo, "pkg/rest/routes.go")
+	if err != nil {
+		return "", err
+	}
+	ui, err := routesOf(repo, "pkg/webui/routes.go")
+	if err != nil {
+		return "", err
+	}
+	// mount points in server.FullAssembly: prefix("/serve/"), prefix("/api/")
+	_, lf, err := parseFile(repo, "pkg/server/lifecycle.go")
+	if err != nil {
+		return "", err
+	}
+	fa := findFunc(lf, "FullAssembly")
+	if fa == nil {
+		return "", fmt.Errorf("FullAssembly not found")
+	}
+	var mounts []string
+	for _, c := range callsNamed2(fa, "prefix") {
+		if len(c.Args) == 1 {
+			if v, ok := litString(c.Args[0]); ok {
+				mounts = append(mounts, v)
+			}
+		}
+	}
+	// the client's URI prefix
+	_, cf, err := parseFile(repo, "pkg/rest/client/apiv1_client.go")
+	if err != nil {
+		return "", err
+	}
+	seen := map[string]bool{}
+	var cpre []string
+	for _, fn := range []string{"Client.ListMailboxWithContext", "Client.GetMessageWithContext", "Client.MarkSeenWithContext",
+		"Client.GetMessageSourceWithContext", "Client.DeleteMessageWithContext", "Client.PurgeMailboxWithContext"} {
+		d := findFunc(cf, fn)
+		if d == nil {
+			return "", fmt.Errorf("%s not found", fn)
+		}
+		for _, s := range stringLits(d) {
+			if strings.HasPrefix(s, "/api/") && !seen[s] {
+				seen[s] = true
+				cpre = append(cpre, s)
+			}
+		}
+	}
+	var b strings.Builder
+	b.WriteString(coqHeader("Route tables of pkg/rest/routes.go and pkg/webui/routes.go (template, route name, method; source order), their mount points in server.FullAssembly, and the URI prefix(es) used by pkg/rest/client."))
+	b.WriteString("Definition api_routes : list (list N * list N * list N) :=\n  " + coqRoutes(api) + ".\n\n")
+	b.WriteString("Definition ui_routes : list (list N * list N * list N) :=\n  " + coqRoutes(ui) + ".\n\n")
+	b.WriteString("Definition mount_points : list (list N) :=\n  " + coqStrList(mounts) + ".\n\n")
+	b.WriteString("Definition client_prefixes : list (list N) :=\n  " + coqStrList(cpre) + ".\n")
+	return b.String(), nil
+}
+
+// callsNamed2 returns the calls `fn(...)` of a plain identifier inside a function, in source order.
+func callsNamed2(d *ast.FuncDecl, fn string) []*ast.CallExpr {
+	var out []*ast.CallExpr
+	ast.Inspect(d, func(n ast.Node) bool {
+		if c, ok := n.(*ast.CallExpr); ok {
+			if id, ok := c.Fun.(*ast.Ident); ok && id.Name == fn {
+				out = append(out, c)
+			}
+		}
+		return true
+	})
+	return out
 }
